@@ -34,6 +34,7 @@ type Engine struct {
 	LoadTime    time.Duration
 	Defaults    Limits
 	Verbose     bool
+	WantWitness func(h *Harness) bool
 }
 
 type Harness struct {
@@ -69,6 +70,7 @@ type HarnessResult struct {
 	SampleVec  []int
 	SampleDesc string
 	Switches   int
+	Witness    *Cex // a completed path with a model of its path condition, for native cross-validation
 }
 
 var stdInitWhitelist = map[string]bool{
@@ -233,8 +235,10 @@ func (e *Engine) runPath(h *Harness, z *sym.Solver, item WorkItem) (m *Machine, 
 		}
 	}()
 	m.callSSA(nil, h.Fn, nil, nil)
-	if m.sched != nil {
-		// the harness returned while other tasks may still be runnable: like process exit
+	if e.WantWitness != nil && e.WantWitness(h) {
+		if z.Check(m.S, nil, nil) == sym.Sat {
+			m.Witness = m.buildCex("witness", "ok", "completed path")
+		}
 	}
 	return m, PathEnd{"done", ""}
 }
@@ -282,6 +286,9 @@ func (res *HarnessResult) absorb(e *Engine, m *Machine, end PathEnd) {
 		res.Unsupp[end.Kind+": "+end.Msg]++
 	case "bound":
 		res.BoundMsgs[end.Msg]++
+	}
+	if m.Witness != nil && res.Witness == nil {
+		res.Witness = m.Witness
 	}
 	if m.Cex != nil && len(res.Cexs) < e.MaxCex {
 		res.Cexs = append(res.Cexs, m.Cex)
